@@ -77,4 +77,13 @@ Moved(v) == CASE v.k = "moved" -> {v}
               [] v.k = "obj" -> UNION {Moved(v.o[x]) : x \in DOMAIN v.o}
               [] OTHER -> {}
 Distinct(p) == LET ms == Moved(Materialise(p)) IN \A a \in ms, b \in ms : a.rel = b.rel => a = b
+
+(* compile_types.go StructType.compile (also used for the outputs of every stage and
+   pipeline): two members of one declaration that would be sent to the same file name
+   must be refused by the compiler - it is what makes Distinct hold *)
+ClashIn(p, ms) == \E i, j \in DOMAIN ms : i < j /\ HasFiles(p, ms[i].t, {}) /\ HasFiles(p, ms[j].t, {})
+                                           /\ OutName(p, ms[i]) = OutName(p, ms[j])
+Clash(p) == \/ \E i \in DOMAIN p.stages : ClashIn(p, p.stages[i].outs)
+            \/ \E i \in DOMAIN p.pipelines : ClashIn(p, p.pipelines[i].outs)
+            \/ \E i \in DOMAIN p.structs : ClashIn(p, p.structs[i].fields)
 =============================================================================
